@@ -31,7 +31,9 @@ Exit(how) == /\ nev < MaxEvents /\ saved # <<>>
              /\ stack' = SubSeq(stack, 1, Len(stack) - 1) /\ saved' = SubSeq(saved, 1, Len(saved) - 1)
              /\ nev' = nev + 1 /\ last' = <<how>>
 Call(kind) == /\ nev < MaxEvents /\ nev' = nev + 1 /\ last' = <<kind>> /\ UNCHANGED <<stack, saved>>
-Next == (\E d \in DictIds : Enter(d)) \/ Exit("exitN") \/ Exit("exitE") \/ (\E k \in {"call", "notify", "batch"} : Call(k))
+\* proxy("close")() drops the connection only: the headers in force stay in force, the proxy reconnects on the next request
+Close == /\ nev < MaxEvents /\ nev' = nev + 1 /\ last' = <<"close">> /\ UNCHANGED <<stack, saved>>
+Next == (\E d \in DictIds : Enter(d)) \/ Exit("exitN") \/ Exit("exitE") \/ (\E k \in {"call", "notify", "batch"} : Call(k)) \/ Close
 Spec == Init /\ [][Next]_vars
 \* C18 on the model
 RestoredAfterBlock == (last[1] \in {"exitN", "exitE"}) => TRUE
